@@ -6,7 +6,7 @@ CHECK = {
         "data sizes up to the stated bound (small-scope); one fault or one cut per execution (the quantifier's single-fault family; double faults are not enumerated because the first one must already end the operation)",
         "a power cut applies a prefix of the interrupted write in address order; earlier writes are complete (no reordering, no bit-level tearing)",
         "auxiliary buffer size 0 is excluded here: it is C10's livelock finding, every operation would only repeat it",
-        "byte order of the checksum octets: the order the fault-free store of the previous image used (little or big endian)",
+        "placement of checksum and data image inside the region (either first) and byte order of the checksum octets (little or big endian): whatever the fault-free store of the previous image used; neither is fixed by the statement",
         "validate on a fresh instance runs fault-free; nothing is demanded when it does not succeed (the statement is an implication)",
         "a case whose fault-free baseline already misbehaves (store of the previous/new image fails or spins, access outside the region: property C10) is classed precondition-failed, reports nothing against C11 and marks the run capped (not exhaustive)",
     ],
